@@ -331,6 +331,12 @@ class BuilderAI:
         self._first = {}
         self._loopdepth = 0
         self._quiet = 0         # > 0 while a helper is evaluated for one call site (nothing is recorded)
+        self._ctx = []          # the branch / loop / closure bodies under evaluation (a cursor must be consumed where it was made)
+        self._cmeth = {}
+        self.cursor_adts = set()
+        for ap, a in P.adts.items():
+            if ap.startswith(CRATE + "::") and a.kind == "Struct" and any(PAIRS_TY in (f.get("ty") or "") for f in a.variants[0]["fields"]):
+                self.cursor_adts.add(ap)    # a struct around the children iterator of a pair: a cursor
         self._stack = []        # functions under evaluation
 
     # ------------------------------------------------------------------ driver
@@ -464,6 +470,7 @@ class BuilderAI:
             ok = True
         self.oblig[key] = {"kind": kind, "fn": f.path, "line": node["s"][0], "rule": rule, "ok": ok, "msg": msg,
                            "detail": detail, "loc": "%s:%d" % (f.file, node["s"][0])}
+        return key
 
     @staticmethod
     def _rel(path):
@@ -574,8 +581,6 @@ class BuilderAI:
     def _is_parts(self, n):
         if n.get("k") != "BlockExpr" or not n.get("x"):
             return False
-        if n.get("x") == "parts":
-            return True
         blk = n["b"]
         lets = [s for s in blk["stmts"] if s.get("k") == "Let" and "init" in s]
         if not lets or "tail" not in blk:
@@ -609,17 +614,8 @@ class BuilderAI:
         for e in elems:
             opt = _ty(e).startswith("core::option::Option<") if e.get("t") else e.get("k") != "Match"
             slots.append((self._slot_rule(e), opt))
-        f = self.cur
         if src is not None and src.kind == "pair":
-            for R in sorted(src.m):
-                bad = G.accepts_outside(self._lang(R), slots)
-                pat = " ".join((s or "?") + ("?" if o else "") for s, o in slots)
-                words = [" ".join(w) for w in bad]
-                leftover = [w for w in bad if self._is_leftover(w, slots)]
-                self._ob("parts", f, n, R, not bad,
-                         "children of %s = %s ; builder pattern [%s]" % (R, G.show(self._lang(R)), pat),
-                         {"counterexamples": words, "slots": pat, "panics": any(not self._is_leftover(w, slots) for w in bad),
-                          "drops": bool(leftover)}, fuzzy=src.fuzzy)
+            self._parts_ob(n, src, slots)
         vals = []
         for r, o in slots:
             if src is None:
@@ -631,6 +627,78 @@ class BuilderAI:
         if tail is not None and tail.get("k") != "Tup":
             return vals[0] if vals else None
         return V("tuple", elems=vals)
+
+    def _parts_ob(self, n, src, slots):
+        """the children of every rule of `src` are accepted, exactly, by the slot pattern; returns the obligation keys"""
+        keys = []
+        for R in sorted(src.m):
+            bad = G.accepts_outside(self._lang(R), slots)
+            pat = " ".join((s or "?") + ("?" if o else "") for s, o in slots)
+            words = [" ".join(w) for w in bad]
+            leftover = [w for w in bad if self._is_leftover(w, slots)]
+            keys.append(self._ob("parts", self.cur, n, R, not bad,
+                                 "children of %s = %s ; builder pattern [%s]" % (R, G.show(self._lang(R)), pat),
+                                 {"counterexamples": words, "slots": pat, "panics": any(not self._is_leftover(w, slots) for w in bad),
+                                  "drops": bool(leftover)}, fuzzy=src.fuzzy))
+        return keys
+
+    # ------------------------------------------------------------------ cursors (a sequence acceptor spelled as an object)
+    def _cursor_method(self, g):
+        """"optional" / "required" for a method `(&mut cursor, Rule) -> Option<Pair> / Pair` that takes at most the next child and only
+        when it is of the given rule; None for anything else"""
+        if g.path in self._cmeth:
+            return self._cmeth[g.path]
+        out = None
+        so = g.sig_output or ""
+        rule_params = [p for p, t in zip(g.params, g.sig_inputs) if (t or "").endswith("parser::Rule") and p.get("k") == "Binding"]
+        kind = "optional" if so.startswith("core::option::Option<" + PAIR_TY) else ("required" if so.startswith(PAIR_TY) else None)
+        if kind and len(rule_params) == 1:
+            rl = rule_params[0]["local"]
+            skipping = {"find", "rfind", "skip_while", "take_while", "filter", "filter_map", "find_map", "position", "nth", "skip", "last", "for_each",
+                        "fold", "collect", "by_ref", "rev", "nth_back", "next_back"}
+            body = list(g.walk())
+            plain = not any(x.get("k") == "Loop" or (x.get("k") == "MethodCall" and x["method"] in skipping) for x in body)
+            tested = False
+            for x in body:
+                if x.get("k") == "MethodCall" and x["args"] and any(peel(a).get("local") == rl for a in x["args"]):
+                    callee = self.P.fns.get(call_name(x) or "")
+                    if x["method"] == "is_rule" or (callee is not None and callee.path != g.path and self._cursor_method(callee) == "optional"):
+                        tested = True
+                elif x.get("k") == "Binary" and x.get("op") in ("==", "!=") and any(peel(y).get("local") == rl for y in (x["l"], x["r"])):
+                    tested = True
+            if plain and tested and (kind == "optional" or is_panic(g.body)):
+                out = kind
+        self._cmeth[g.path] = out
+        return out
+
+    def _cursor_new(self, n, parent):
+        st = {"parent": parent, "slots": [], "site": n, "ctx": tuple(self._ctx), "ok": self._loopdepth == 0, "keys": []}
+        return V("cursor", node=st)
+
+    def _cursor_spoil(self, v):
+        """the cursor is used in a way this model does not follow: its acceptance is not decided"""
+        if v is not None and v.kind == "cursor" and v.node is not None and v.node["ok"]:
+            v.node["ok"] = False
+            for k in v.node["keys"]:
+                self.oblig.pop(k, None)
+
+    def _cursor_take(self, n, cur, kind, rule):
+        st = cur.node
+        parent = st["parent"] if st else None
+        if st is not None:
+            if st["ok"] and st["ctx"] == tuple(self._ctx) and rule:
+                st["slots"].append((rule, kind == "optional"))
+                for k in st["keys"]:
+                    self.oblig.pop(k, None)
+                st["keys"] = self._parts_ob(st["site"], parent, st["slots"]) if parent.kind == "pair" else []
+            else:
+                self._cursor_spoil(cur)
+        if not rule:
+            m = self._inner(parent, 0).m if parent is not None else {}
+            return V("opt" if kind == "optional" else "pair", m, fuzzy=True)
+        an = self._child_m(parent, rule) if parent is not None else E
+        # handed out only when its rule is the requested one: exact whatever else is known
+        return V("opt" if kind == "optional" else "pair", {rule: an})
 
     @staticmethod
     def _is_leftover(word, slots):
@@ -927,6 +995,9 @@ class BuilderAI:
                     rec["sites"] += 1
             if "base" in n and isinstance(n["base"], dict):
                 vals.append(self._ev(n["base"], env))
+            if adt in self.cursor_adts:
+                seqs = [v for v in vals if v is not None and v.kind == "seq" and v.pos and v.pos[1] == 0]
+                return self._cursor_new(n, seqs[0].pos[0]) if len(seqs) == 1 else (None if any(v is None for v in vals) else V("cursor"))
             if adt in ("nitrogql_ast::base::Ident", "nitrogql_ast::base::Keyword"):
                 by = {fld["name"]: prov(v) for fld, v in zip(n["fields"], vals)}
                 self.ident_sites.append({"fn": self.cur.path, "loc": "%s:%d" % (self.cur.file, n["s"][0]), "adt": adt.split("::")[-1], "by": by})
@@ -945,12 +1016,14 @@ class BuilderAI:
         if k == "Loop":
             self._widen(env)
             self._loopdepth += 1
+            self._ctx.append(id(n))
             for _ in range(2):
                 e2 = dict(env)
                 self._ev(n["body"], e2)
                 self._merge(env, [env, e2])
                 self._widen(env)
             self._loopdepth -= 1
+            self._ctx.pop()
             return None
         if k in ("Assign", "AssignOp"):
             v = self._ev(n["r"], env)
@@ -1003,8 +1076,11 @@ class BuilderAI:
                 self._guard_ob(n, l, v, then_env[l].rules, "guard: the branch for %s panics" % sorted(then_env[l].rules))
             elif "else" in n and diverges(n["else"]) and is_panic(n["else"]):
                 self._guard_ob(n, l, v, else_env[l].rules, "guard: the branch for %s panics" % sorted(else_env[l].rules))
+        self._ctx.append(id(n["then"]))
         a = self._ev(n["then"], then_env)
+        self._ctx[-1] = id(n)
         b = self._ev(n["else"], else_env) if "else" in n else None
+        self._ctx.pop()
         live = []
         if not diverges(n["then"]):
             live.append(then_env)
@@ -1057,11 +1133,20 @@ class BuilderAI:
         sc = n["scrut"]
         f = self.cur
         l, v = self._rule_subject(sc, env)
+        tmp = None
+        psc = peel(sc)
+        if l is None and psc.get("k") == "MethodCall" and psc["method"] == "as_rule" and not any("guard" in a for a in n["arms"]):
+            # the rule of a temporary: `match pair.only_child().as_rule() { .. }`
+            rvv = self._ev(psc["recv"], env)
+            if rvv is not None and rvv.kind == "pair":
+                tmp = l = ("tmp", id(n))
+                env[l] = v = rvv
         if l is not None and not any("guard" in a for a in n["arms"]):
             # match p.as_rule() { Rule::A => .., rule => panic!(..) }
             seen = set()
             live, out = [], None
             table = {}
+            ctors = {}
             panicking = set()
             handled = set()
             has_panic = False
@@ -1079,18 +1164,29 @@ class BuilderAI:
                     panicking |= reach
                 else:
                     handled |= rs if rs else reach
+                self._ctx.append(id(arm))
                 val = self._ev(arm["body"], e2)
+                self._ctx.pop()
                 lv = lit_value(arm["body"])
                 if lv is not None:
                     for r in (rs or reach):
                         table[r] = lv
+                else:
+                    b = peel(arm["body"])
+                    if b.get("k") == "Path" and str(b.get("dk", "")).startswith("Ctor") and rs:
+                        for r in rs:
+                            ctors[r] = norm(b.get("def", ""))
                 if not dv:
                     live.append(e2)
                     out = join(out, val)
             if has_panic:
                 self._guard_ob(n, l, v, panicking, "match over as_rule() handles %s" % sorted(handled))
-            if table:
-                self.rule_tables.append({"fn": f.path, "loc": "%s:%d" % (f.file, n["s"][0]), "table": table, "subject": sorted(v.rules)})
+            if table or ctors:
+                self.rule_tables.append({"fn": f.path, "loc": "%s:%d" % (f.file, n["s"][0]), "table": table, "ctors": ctors, "subject": sorted(v.rules)})
+            if tmp is not None:
+                for e3 in live:
+                    e3.pop(tmp, None)
+                env.pop(tmp, None)
             self._merge(env, live)
             return self._with_control(out, [v])
         val = self._ev(sc, env)
@@ -1111,7 +1207,9 @@ class BuilderAI:
             if "guard" in arm:
                 t, _ = self._cond(arm["guard"], e2)
                 e2 = t
+            self._ctx.append(id(arm))
             r = self._ev(arm["body"], e2)
+            self._ctx.pop()
             if not diverges(arm["body"]):
                 live.append(e2)
                 out = join(out, r)
@@ -1156,7 +1254,9 @@ class BuilderAI:
             for i, p in enumerate(c["params"]):
                 self._bind(p, argvals[i] if i < len(argvals) else None, e2)
             saved, self._rets = self._rets, []
+            self._ctx.append(id(c))
             out = self._ev(c["body"], e2)
+            self._ctx.pop()
             for r in self._rets:        # `return` inside a closure leaves the closure
                 out = join(out, r)
             self._rets = saved
@@ -1225,6 +1325,8 @@ class BuilderAI:
 
     def _out_params(self, args, vals, env):
         """a local handed to a call by `&mut` may be filled from the other arguments (out-parameter) or advanced (an iterator)"""
+        for v in vals:
+            self._cursor_spoil(v)       # a cursor handed to other code: what that code consumes is not followed
         for i, a in enumerate(args):
             if not (isinstance(a, dict) and a.get("k") == "AddrOf" and a.get("mut")):
                 continue
@@ -1341,6 +1443,24 @@ class BuilderAI:
         return None
 
     def _ev_method1(self, n, m, recv, rv, args, env):
+        if (rv is not None and rv.kind == "cursor") or (rv is None and _ty(recv).split("<")[0] in self.cursor_adts):
+            g = self.P.fns.get(call_name(n) or "")
+            vals = [self._ev(a, env) for a in args]
+            if rv is None:
+                return None         # not reached yet (bottom)
+            if g is not None and g.path in self.fns and not self._quiet:
+                self.called.add(g.path)
+            kind = self._cursor_method(g) if g is not None else None
+            if kind:
+                rule = None
+                for a in args:
+                    rule = rule or self._rule_const(a, env)
+                return self._cursor_take(n, rv, kind, rule)
+            self._cursor_spoil(rv)
+            if has_pair_ty(_ty(n)) and rv.node is not None:
+                k2 = "pair" if is_pair_ty(_ty(n)) else ("opt" if _ty(n).startswith("core::option::Option<") else "seq")
+                return V(k2, self._inner(rv.node["parent"], 0).m, fuzzy=True)
+            return mkval(*vals)
         if call_name(n) in self.fns:
             # a builder written as a method
             vals = [self._ev(a, env) for a in args]
@@ -1388,6 +1508,8 @@ class BuilderAI:
             if rv is not None and rv.kind in ("seq", "opt"):
                 kept = self._select(m, rv, args, env)
                 kind = "opt" if (SELECT[m] == "opt" or rv.kind == "opt") else "seq"
+                if m == "next_if" and rlocal is not None and rv.pos:
+                    env[rlocal] = V("seq", rv.m, fuzzy=rv.fuzzy)      # advanced or not: the position is no longer known
                 if m == "retain" and rlocal is not None:
                     env[rlocal] = V("seq", kept.m, fuzzy=kept.fuzzy)
                     return None
@@ -1562,6 +1684,21 @@ class BuilderAI:
                 self._ev(a, env)
             r = self._rule_const(args[0], env)
             return V("seq", {r: E}) if r else None
+        g = self.P.fns.get(c)
+        if g is not None and (g.sig_output or "").split("<")[0] in self.cursor_adts:
+            # a cursor over the children of a pair is made
+            vals = [self._ev(a, env) for a in args]
+            if c in self.fns and not self._quiet:
+                self.called.add(c)
+                for i, v in enumerate(vals):
+                    self._add_param(c, i, v)
+            pairs = [v for v in vals if v is not None and v.kind == "pair"]
+            if len(pairs) == 1:
+                return self._cursor_new(n, pairs[0])
+            return None if any(v is None for v in vals) else V("cursor")
+        if fnode.get("dk") == "AssocFn" and args and _ty(args[0]).split("<")[0] in self.cursor_adts:
+            return self._ev_method({"k": "MethodCall", "method": last, "recv": args[0], "args": args[1:], "callee": n.get("callee"), "rd": fnode.get("rd"),
+                                    "s": n["s"], "t": n.get("t")}, last, args[0], args[1:], env)
         if c in self.fns:
             vals = [self._ev(a, env) for a in args]
             self._out_params(args, vals, env)
